@@ -15,7 +15,6 @@ import json, os, re, collections
 import vf
 
 DEV_WORKERS = int(os.environ.get("VERIF_TLC_WORKERS", "0")) or None
-ATTRIBUTABLE_TO_C10_DUP = {"duplicate-offer", "near-replicas-not-first", "far-replicas-not-next"}
 
 
 def harness_dirs(*ds):
@@ -48,15 +47,14 @@ def keys_of(v, vec):
         kinds = set(g["kinds"])
         desc = "routing token %s: offered %s; up replicas near=%s far=%s (reference %s); predicted %s" % (
             g["q"], g["got"], g["near"], g["far"], g["reps"], g["predicted"])
-        if g["realdup"] and kinds & ATTRIBUTABLE_TO_C10_DUP:
-            out.append(("inherited-c10-duplicate", desc))
-            kinds -= ATTRIBUTABLE_TO_C10_DUP
+        if g["realdup"]:
+            # the placement code handed the policy a replica list with a host twice (C10): what fails only
+            # because of that is inherited; kinds2 = what still fails relative to that list, de-duplicated
+            out.append(("inherited-c10-duplicate", desc + "; the driver's own replica list was %s" % g["realrep"]))
+            kinds = set(g["kinds2"])
         if g["emptymid"] and "far-replicas-not-next" in kinds:
             out.append((cfg + ":far-replicas-not-next-empty-middle-tier", desc))
             kinds.discard("far-replicas-not-next")
-        if g["norep"] and "tier-order" in kinds:
-            out.append((cfg + ":tier-order-keyspace-without-replicas", desc))
-            kinds.discard("tier-order")
         for k in sorted(kinds):
             out.append((cfg + ":" + k, desc))
     return out
